@@ -12,6 +12,8 @@ def explore(run, lean):
                          "non-trivial = the script contains an operation the property speaks about; distinct by canonical JSON")
     ROUND6_RULE = '; failing steps raise one of twelve exception types (IndexError, KeyError, StopIteration, ...): the exception reaches the caller, complete_circuit never returns normally with events pending'
     run.extra["rule"] += ROUND6_RULE
+    ROUND8_RULE = '; classes with QUEUE_SIZE = None (unbounded deques) (round 8)'
+    run.extra["rule"] = run.extra.get("rule", "") + ROUND8_RULE
 
 
 def replay(case):
